@@ -45,16 +45,16 @@ THEOREMS = [
     "Scenic.C07.azimuthOf_unit", "Scenic.C07.altitudeOf_unit", "Scenic.C07.beyond_frame", "Scenic.C07.beyond_local",
     "Scenic.C07.beyond_scalar", "Scenic.C07.beyond_parent_inherited",
     "Scenic.C07.facing_toward", "Scenic.C07.facing_directly_toward",
-    "Scenic.C07.following_uniform", "Scenic.C07.following_step",
+    "Scenic.C07.facing_family_generated", "Scenic.C07.facing_family_meaning",
+    "Scenic.C07.following_uniform", "Scenic.C07.following_uniform_total", "Scenic.C07.following_step",
+    "Scenic.C07.follow_step_rule",
     # operators
     "Scenic.C07.distance_symm", "Scenic.C07.distance_rigid", "Scenic.C07.distance_formula",
     "Scenic.C07.angle_spec", "Scenic.C07.angle_zero_iff_north", "Scenic.C07.altitude_spec",
     "Scenic.C07.altitude_directly_above", "Scenic.C07.relative_heading_spec", "Scenic.C07.apparent_heading_spec",
     "Scenic.C07.distance_past_spec", "Scenic.C07.yaw_of_heading",
     "Scenic.C07.apparently_facing_global_parent", "Scenic.C07.apparently_facing_parent_frame",
-    "Scenic.C07.apparently_facing_respects_parent", "Scenic.C07.apparently_facing_generated",
-    "Scenic.C07.apparently_facing_ignoring_parent_witness", "Scenic.C07.apparently_facing_current_status",
-    "Scenic.C07.beyond_parent_current_status",
+    "Scenic.C07.apparently_facing_respects_parent", "Scenic.C07.apparently_facing_general",
     # the (cos, sin) model at real angles
     "Scenic.C07.angOfReal_unit", "Scenic.C07.angOfReal_ops", "Scenic.C07.heading_convention_real",
     "Scenic.C07.heading_add_real", "Scenic.C07.euler_real", "Scenic.C07.ofHalf_real",
@@ -62,7 +62,11 @@ THEOREMS = [
 SIDE = [
     "Scenic.C07.gen_offset_axis", "Scenic.C07.gen_offset_other", "Scenic.C07.gen_components", "Scenic.C07.gen_contact",
     "Scenic.C07.gen_on_contact", "Scenic.C07.gen_beyond_scalar", "Scenic.C07.gen_corner_table",
-    "Scenic.C07.gen_corner_signs", "Scenic.C07.gen_side_table",
+    "Scenic.C07.gen_corner_signs", "Scenic.C07.gen_side_table", "Scenic.C07.gen_facing_table",
+    # closed forms of the primitives instantiated on generated formulas (Lemmas/Frames.lean)
+    "Scenic.Frames.euler_eq", "Scenic.Frames.gen_euler_axes", "Scenic.Frames.rotatedBy_eq",
+    "Scenic.Frames.azimuthOf_eq", "Scenic.Frames.altitudeOf_eq", "Scenic.Frames.azimuthTo_eq",
+    "Scenic.Frames.altitudeTo_eq", "Scenic.Frames.apparentHeading_eq",
 ]
 
 V = "src/scenic/syntax/veneer.py"
@@ -327,6 +331,10 @@ def library_source():
          "        return new OrientedPoint at a[1], facing (a[2][0], a[2][1], a[2][2])",
          "    if a[0] == 'obje':",
          "        return new Ob at a[1], facing (a[2][0], a[2][1], a[2][2])",
+         "    if a[0] == 'objp':",
+         "        return new Ob at a[1], with parentOrientation Qn(a[2]), with yaw a[3][0], with pitch a[3][1], with roll a[3][2]",
+         "    if a[0] == 'heading':",
+         "        return a[1]",
          "    if a[0] == 'orient':",
          "        return Qn(a[1])",
          "    return a[1]"]
@@ -560,8 +568,9 @@ def case_facingtoward(rng):
     kw = ("facing directly away from" if away else "facing directly toward") if directly else \
          ("facing away from" if away else "facing toward")
     fn = ("daway_" if away else "dtoward_") if directly else ("away_" if away else "toward_")
-    lean = (f"C07 facingtoward {'away' if away else 'toward'} {'direct' if directly else 'yaw'} {pq.lean()} "
-            f"{frs(p)} {frs(t)} {fr(h)} {fr(rho)}")
+    spec = ("FacingDirectlyAwayFrom" if away else "FacingDirectlyToward") if directly else \
+           ("FacingAwayFrom" if away else "FacingToward")
+    lean = f"C07 facingtoward {spec} {'away' if away else 'toward'} {pq.lean()} {frs(p)} {frs(t)} {fr(h)} {fr(rho)}"
     code = [f"n = new Object at {vec_s(p)}, with parentOrientation {pq.scenic()}, {kw} {vec_s(t)}{OBJ_TAIL}"]
     return {"op": f"facingtoward:{fn}:{pk}", "lean": lean, "code": code, "get": "yaw_pitch_ori", "pick": None,
             "call": (fn, fv(p), pq.xyzw(), fv(t)), "scale": 1.0}
@@ -909,8 +918,40 @@ def angdiff(a, b):
     return min(d, 2 * math.pi - d)
 
 
-def rep_of(c, what):
-    return {"kind": "call", "call": c["call"], "what": what}
+def enc(x):
+    """JSON-able encoding of a case (Fractions, exact quaternions, tuples)"""
+    if isinstance(x, F):
+        return {"__F": f"{x.numerator}/{x.denominator}"}
+    if isinstance(x, Quat):
+        return {"__Q": [f"{c.numerator}/{c.denominator}" for c in x.c]}
+    if isinstance(x, tuple):
+        return {"__T": [enc(y) for y in x]}
+    if isinstance(x, list):
+        return [enc(y) for y in x]
+    if isinstance(x, dict):
+        return {k: enc(v) for k, v in x.items()}
+    return x
+
+
+def dec(x):
+    if isinstance(x, dict):
+        if "__F" in x:
+            return F(x["__F"])
+        if "__Q" in x:
+            return Quat(*[F(c) for c in x["__Q"]])
+        if "__T" in x:
+            return tuple(dec(y) for y in x["__T"])
+        return {k: dec(v) for k, v in x.items()}
+    if isinstance(x, list):
+        return [dec(y) for y in x]
+    return x
+
+
+def rep_of(c, what, family=None):
+    """replay record: the library call (readable) and the whole case, from which `replay` re-runs the call on the
+    real code and re-evaluates the same oracle"""
+    return {"kind": "oracle", "family": family or c.get("family"), "call": c.get("call"), "what": what,
+            "case": enc({k: v for k, v in c.items() if k != "idx"})}
 
 
 def crashed(ctx, c, raw, family):
@@ -929,7 +970,7 @@ def plan_directional(ctx, batch, n):
         rp, (rq, qk), rd, sd, ct = rpos(rng), rquat(rng), rdims(rng), rdims(rng), rct(rng)
         dk, d = rdist(rng)
         refkind = rng.choice(["obj", "obj", "op", "vec"])
-        c = dict(k=k, rp=rp, rq=rq, qk=qk, rd=rd, sd=sd, ct=ct, dk=dk, d=d, refkind=refkind)
+        c = dict(family="directional", k=k, rp=rp, rq=rq, qk=qk, rd=rd, sd=sd, ct=ct, dk=dk, d=d, refkind=refkind)
         if refkind == "vec":
             c["call"] = (f"dirvec_{k}_none", fv(rp), rq.xyzw(), fv(sd), float(ct)) if dk == "none" else \
                         (f"dirvec_{k}_by", fv(rp), rq.xyzw(), fv(sd), float(ct), dval(dk, d))
@@ -1008,7 +1049,7 @@ def plan_facing(ctx, batch, n):
     cases = []
     for _ in range(n):
         kind = rng.choice(["facing", "facing3", "toward", "away", "dtoward", "daway", "apparent", "apparent"])
-        c = dict(kind=kind, pq=rquat(rng, "yaw" if kind == "apparent" and rng.random() < 0.8 else None),
+        c = dict(family="facing", kind=kind, pq=rquat(rng, "yaw" if kind == "apparent" and rng.random() < 0.8 else None),
                  tq=rquat(rng), p=rpos(rng), t=rpos(rng), e=(rhalf(rng), rhalf(rng, True), rhalf(rng)), h=rhalf(rng))
         p, pq = fv(c["p"]), c["pq"][0].xyzw()
         if kind == "facing":
@@ -1081,9 +1122,19 @@ def finish_facing(ctx, batch, cases):
             found |= ctx.violation("apparent-heading:inconsistent",
                                    f"`apparent heading of` returned {got!r}, heading - azimuth is {hdg - az!r}", rep)
         if c["pq"][1] in ("id", "yaw") and angdiff(hdg - az, H) > 1e-8:
-            key = "apparently-facing:global-parent" if c["pq"][0].is_identity() else "apparently-facing:parent-ignored"
+            key = "apparently-facing:global-parent" if c["pq"][0].is_identity() else "apparently-facing:yaw-parent"
             found |= ctx.violation(key, f"`apparently facing {H!r} from P` with parent orientation {c['pq'][0].xyzw()} "
                                         f"(x,y,z,w) gives apparent heading {(hdg - az)!r}", rep)
+        # any parent orientation: in the parent frame the forward axis is the horizontal line of sight turned by H
+        u = P.inv().apply(los)
+        f = P.inv().apply(fwd)
+        hn = math.hypot(u[0], u[1])
+        if hn > 1e-3:
+            want = np.array([math.cos(H) * u[0] - math.sin(H) * u[1], math.sin(H) * u[0] + math.cos(H) * u[1], 0.0]) / hn
+            if np.abs(f - want).max() > 1e-8:
+                found |= ctx.violation("apparently-facing:parent-frame",
+                                       f"`apparently facing {H!r} from P`: in the parent frame forward is {list(f)}, "
+                                       f"the line of sight turned by H is {list(want)}", rep)
     return found
 
 
@@ -1092,7 +1143,7 @@ def plan_offsets(ctx, batch, n):
     cases = []
     for _ in range(n):
         kind = rng.choice(["beyond", "beyond", "offsetby", "offsetalong", "side", "on"])
-        c = dict(kind=kind, p=rpos(rng), f=rpos(rng), q=rquat(rng), q2=rquat(rng), off=rpos(rng, 5),
+        c = dict(family="offsets", kind=kind, p=rpos(rng), f=rpos(rng), q=rquat(rng), q2=rquat(rng), off=rpos(rng, 5),
                  dims=rdims(rng), scalar=rng.random() < 0.4, fromop=rng.random() < 0.6,
                  side=rng.choice(sorted(SIDE_NAMES)), ct=rct(rng), base=(rnum(rng, 2), rnum(rng, 2), rnum(rng, 2)))
         r = (fv(c["p"]), c["q"][0].xyzw(), fv(c["dims"]))
@@ -1156,10 +1207,9 @@ def finish_offsets(ctx, batch, cases):
             Q = Orientation.fromQuaternion(c["q"][0].xyzw()).r.as_matrix() if c["fromop"] else np.eye(3)
             got = o.parentOrientation.r.as_matrix()
             if np.abs(got - Q).max() > 1e-9:
-                dropped = c["fromop"] and np.abs(got - np.eye(3)).max() < 1e-9
-                key = "beyond:from-orientation-dropped" if dropped else "beyond:parent-orientation"
-                found |= ctx.violation(key, "`beyond X by v from P` with P an OrientedPoint: parentOrientation is "
-                                       f"{'the global orientation' if dropped else 'wrong'}, the reference says P's orientation", rep)
+                found |= ctx.violation("beyond:parent-orientation",
+                                       "`beyond X by v from P`: parentOrientation is not P's orientation (P an OrientedPoint) "
+                                       "resp. the global orientation (P a vector), as the reference says", rep)
             continue
         R = ref.orientation.r
         loc_frame = Orientation.fromQuaternion(c["q2"][0].xyzw()).r if k == "offsetalong" else R
@@ -1183,8 +1233,9 @@ def plan_operators(ctx, batch, n):
     rng = ctx.rng
     cases = []
     for _ in range(n):
-        kind = rng.choice(["dist", "angle", "alt", "relh", "dpast", "relorient", "relvecop", "followsteps"])
-        c = dict(kind=kind, a=rpos(rng), b=rpos(rng), h1=rhalf(rng), h2=rhalf(rng), q1=rquat(rng)[0], q2=rquat(rng)[0],
+        kind = rng.choice(["dist", "angle", "alt", "relh", "dpast", "relorient", "relvecop", "relopori", "relophead",
+                           "followsteps", "followsteps"])
+        c = dict(family="operators", kind=kind, a=rpos(rng), b=rpos(rng), h1=rhalf(rng), h2=rhalf(rng), q1=rquat(rng)[0], q2=rquat(rng)[0],
                  dims=rdims(rng), off=rpos(rng, 5))
         if kind == "dist":
             c["call"] = ("dist_", ("vec", fv(c["a"])), ("vec", fv(c["b"])))
@@ -1202,10 +1253,18 @@ def plan_operators(ctx, batch, n):
             c["swap"] = rng.random() < 0.5
             x, y = ("vec", fv(c["off"])), ("obj", fv(c["a"]), c["q1"].xyzw(), fv(c["dims"]))
             c["call"] = ("relto_", y, x) if c["swap"] else ("relto_", x, y)
+        elif kind in ("relopori", "relophead"):
+            # <oriented point with a non-global parent AND its own yaw/pitch/roll> relative to <orientation | heading>
+            c["swap"] = rng.random() < 0.5
+            c["e"] = (rhalf(rng), rhalf(rng, True), rhalf(rng))
+            x = ("objp", fv(c["a"]), c["q1"].xyzw(), tuple(ang_f(t) for t in c["e"]))
+            y = ("orient", c["q2"].xyzw()) if kind == "relopori" else ("heading", ang_f(c["h1"]))
+            c["call"] = ("relto_", y, x) if c["swap"] else ("relto_", x, y)
         else:
-            c["dist"] = rng.choice([F(1), F(3), F(10), F(21, 2), F(25), F(1, 2), F(49, 2), F(5)])
+            c["dist"] = rng.choice([F(1), F(3), F(10), F(21, 2), F(25), F(1, 2), F(49, 2), F(5), F(6), F(27, 4)])
             c["ms"], c["ss"] = rng.choice([1, 2, 4, 7]), rng.choice([F(5), F(1), F(5, 2), F(30)])
-            c["call"] = ("followcount_", float(rnum(rng, 5)), c["q1"].xyzw(), c["q2"].xyzw(), fv(c["a"]), float(c["dist"]),
+            c["x0"] = rnum(rng, 5)
+            c["call"] = ("followcount_", float(c["x0"]), c["q1"].xyzw(), c["q2"].xyzw(), fv(c["a"]), float(c["dist"]),
                          c["ms"], float(c["ss"]))
         c["idx"] = batch.add(c["call"])
         cases.append(c)
@@ -1258,7 +1317,37 @@ def finish_operators(ctx, batch, cases):
                     np.abs(raw.orientation.r.as_matrix() - R.as_matrix()).max() > 1e-9:
                 found |= ctx.violation("operator:relative-to-oriented-point",
                                        "`v relative to P` is not the point at local coordinates v of P inheriting P's orientation", rep)
+        elif k == "relopori":
+            P = Orientation.fromQuaternion(c["q1"].xyzw()).r.as_matrix()
+            E = Orientation.fromEuler(*(ang_f(t) for t in c["e"])).r.as_matrix()
+            Q = Orientation.fromQuaternion(c["q2"].xyzw()).r.as_matrix()
+            O = P @ E                                   # global orientation of the oriented point
+            want = (O @ Q) if c["swap"] else (Q @ O)    # `X relative to Y` = Y * X
+            if not hasattr(raw, "r") or np.abs(raw.r.as_matrix() - want).max() > 1e-9:
+                found |= ctx.violation("operator:relative-to-opoint-orientation",
+                                       "`X relative to Y` with an oriented point and an orientation is not Y * X "
+                                       "(with the point's global orientation)", rep)
+        elif k == "relophead":
+            P = Orientation.fromQuaternion(c["q1"].xyzw()).r.as_matrix()
+            E = Orientation.fromEuler(*(ang_f(t) for t in c["e"])).r.as_matrix()
+            O = P @ E
+            if math.hypot(O[0][1], O[1][1]) > 1e-3:
+                hdg = math.atan2(-O[0][1], O[1][1])     # global yaw of the point
+                ok = isinstance(raw, (int, float)) or hasattr(raw, "__float__")
+                if not ok or angdiff(float(raw), hdg + ang_f(c["h1"])) > 1e-8:
+                    found |= ctx.violation("operator:relative-to-opoint-heading",
+                                           f"`<heading> relative to <oriented point>` = {raw!r}: not the point's global heading "
+                                           f"{hdg!r} plus the heading {ang_f(c['h1'])!r}", rep)
         else:
+            nobj = raw[0]
+            x0 = float(c["x0"])
+            px = float(nobj.position[0])
+            if abs(px - x0) > 1e-6:
+                Q = Orientation.fromQuaternion((c["q1"] if px < x0 else c["q2"]).xyzw()).r.as_matrix()
+                if np.abs(nobj.parentOrientation.r.as_matrix() - Q).max() > 1e-9:
+                    found |= ctx.violation("following:orientation",
+                                           "`following F from P for D`: parentOrientation is not the field's orientation at the "
+                                           "final position", rep)
             # documented step rule of followFrom: at least minSteps steps, no step longer than defaultStepSize,
             # and no more steps than that requires; the field is evaluated once per step and once at the end
             steps = int(raw[1]) - 1
@@ -1279,7 +1368,7 @@ def plan_rigid(ctx, batch, n):
         g, _ = rquat(rng, "gen")
         t = rpos(rng)
         k = rng.choice(DIRS)
-        c = dict(g=g, t=t, k=k, rp=rpos(rng), rq=rquat(rng)[0], rd=rdims(rng), sd=rdims(rng), dist=rdist(rng),
+        c = dict(family="rigid", g=g, t=t, k=k, rp=rpos(rng), rq=rquat(rng)[0], rd=rdims(rng), sd=rdims(rng), dist=rdist(rng),
                  side=rng.choice(sorted(SIDE_NAMES)), tq=rquat(rng)[0], tp=rpos(rng), ct=rct(rng))
 
         def calls(move):
@@ -1311,8 +1400,9 @@ def finish_rigid(ctx, batch, cases):
             r0, r1 = batch.res[c["idx"][0][j]], batch.res[c["idx"][1][j]]
             ctx.evaluations += 1
             ctx.hist("oracle_rigid", nm)
-            rep = {"kind": "rigid", "call": c["calls"][0][j], "moved": c["calls"][1][j], "g_xyzw": list(c["g"].xyzw()),
-                   "t": [float(x) for x in c["t"]]}
+            rep = {"kind": "oracle", "family": "rigid", "call": c["calls"][0][j], "moved": c["calls"][1][j],
+                   "g_xyzw": list(c["g"].xyzw()), "t": [float(x) for x in c["t"]],
+                   "case": enc({k: v for k, v in c.items() if k != "idx"})}
             if isinstance(r0, str) or isinstance(r1, str):
                 found |= ctx.violation(f"rigid:crash:{nm}", f"{nm}: {r0 if isinstance(r0, str) else r1}", rep)
                 continue
@@ -1327,67 +1417,104 @@ def finish_rigid(ctx, batch, cases):
     return found
 
 
-def oracle_algebra(ctx, n):
-    """numeric group laws, Euler round trips and heading convention on the real Orientation / Vector"""
+def algebra_case(viol, qa, qb, qc, v, hh, e3):
+    """numeric group laws, Euler round trips and heading convention for one input"""
     np = np_()
-    rng = ctx.rng
     from scenic.core.vectors import Orientation, Vector
-    found = False
 
     def M(o):
         return o.r.as_matrix()
+    a, b, c = (Orientation.fromQuaternion(q.xyzw()) for q in (qa, qb, qc))
+    v = [float(x) for x in v]
+    rep = {"qa": enc(qa), "qb": enc(qb), "qc": enc(qc), "v": enc([F(x) for x in v]), "hh": enc(hh), "e3": enc(e3)}
+    if np.abs(M((a * b) * c) - M(a * (b * c))).max() > 1e-9:
+        viol("assoc", "(a*b)*c != a*(b*c)", rep)
+    if np.abs(M(a * a.inverse) - np.eye(3)).max() > 1e-9 or np.abs(M(a.inverse * a) - np.eye(3)).max() > 1e-9:
+        viol("inverse", "a * a.inverse is not the identity", rep)
+    if np.abs(M(a * b) - M(a) @ M(b)).max() > 1e-9:
+        viol("compose-matrix", "the matrix of a*b is not matrix(a) @ matrix(b)", rep)
+    lhs = np.array(Vector(*v).applyRotation(a * b))
+    rhs = np.array(Vector(*Vector(*v).applyRotation(b)).applyRotation(a))
+    if np.abs(lhs - rhs).max() > 1e-8 * mag(v):
+        viol("intrinsic-order", "(a*b) applied to v is not a applied to (b applied to v)", rep)
+    e = a.eulerAngles
+    if np.abs(M(Orientation.fromEuler(*e)) - M(a)).max() > 1e-8:
+        viol("euler-roundtrip", "fromEuler(eulerAngles(a)) != a", rep)
+    la = b.localAnglesFor(a)
+    if np.abs(M(b * Orientation.fromEuler(*la)) - M(a)).max() > 1e-8:
+        viol("local-angles", "b * fromEuler(b.localAnglesFor(a)) != a", rep)
+    h = ang_f(hh)
+    w = np.array(Vector(0, 1, 0).applyRotation(Orientation._fromHeading(h)))
+    w2 = np.array(Vector(0, 1, 0).rotatedBy(h))
+    w3 = np.array(Vector(0, 1, 0).applyRotation(Orientation.fromEuler(h, 0, 0)))
+    want = np.array([-math.sin(h), math.cos(h), 0.0])
+    if max(np.abs(w - want).max(), np.abs(w2 - want).max(), np.abs(w3 - want).max()) > 1e-9:
+        viol("heading-convention", f"heading {h} does not map +Y to (-sin h, cos h, 0)", rep)
+    # h + orientation / orientation + h (Orientation.__radd__ / __add__): heading applied first / last
+    if np.abs(M(h + a) - M(Orientation._fromHeading(h)) @ M(a)).max() > 1e-9 or \
+            np.abs(M(a + h) - M(a) @ M(Orientation._fromHeading(h))).max() > 1e-9:
+        viol("heading-plus-orientation", "h + a is not heading(h) * a, or a + h is not a * heading(h)", rep)
+    x = np.array(Vector(*v).rotatedBy(h))
+    if np.abs(x - np.array([math.cos(h) * v[0] - math.sin(h) * v[1], math.sin(h) * v[0] + math.cos(h) * v[1], v[2]])).max() \
+            > 1e-8 * mag(v):
+        viol("rotated-by", f"Vector.rotatedBy({h}) is not the counter-clockwise rotation about Z", rep)
+    y, p, r = (ang_f(t) for t in e3)
+    o = Orientation.fromEuler(y, p, r)
+    if angdiff(o.yaw, y) > 1e-8 or angdiff(o.pitch, p) > 1e-8 or angdiff(o.roll, r) > 1e-8:
+        viol("euler-extract", f"eulerAngles(fromEuler({y},{p},{r})) = {tuple(o.eulerAngles)}", rep)
+    fw = M(o) @ np.array([0.0, 1.0, 0.0])
+    if np.abs(fw - np.array([-math.sin(y) * math.cos(p), math.cos(y) * math.cos(p), math.sin(p)])).max() > 1e-9:
+        viol("euler-forward", "forward axis of fromEuler(y,p,r) is not (-sin y cos p, cos y cos p, sin p)", rep)
+    # spherical coordinates of the forward axis give back yaw and pitch
+    sph = Vector(*fw).sphericalCoordinates()
+    if math.cos(p) > 1e-3 and (angdiff(sph[1], y) > 1e-8 or angdiff(sph[2], p) > 1e-8 or abs(sph[0] - 1) > 1e-9):
+        viol("spherical", f"sphericalCoordinates of the forward axis of fromEuler({y},{p},..) = {tuple(sph)}", rep)
+    # Vector.cross (used nowhere by the specifiers, but part of the anchored vector algebra)
+    try:
+        cr = np.array(Vector(*v).cross(Vector(1, 2, 3)))
+        if np.abs(cr - np.cross(np.array(v), np.array([1.0, 2.0, 3.0]))).max() > 1e-8 * mag(v):
+            viol("vector-cross:value", f"Vector{tuple(v)}.cross(Vector(1,2,3)) = {list(cr)}", rep)
+    except Exception as ex:  # noqa
+        viol("vector-cross:" + type(ex).__name__, f"Vector.cross raises {type(ex).__name__}: {ex}", rep)
+
+
+def oracle_algebra(ctx, n):
+    """numeric group laws, Euler round trips and heading convention on the real Orientation / Vector"""
+    rng = ctx.rng
+    found = False
 
     def viol(key, what, rep):
         nonlocal found
-        found |= ctx.violation("algebra:" + key, what, dict(rep, kind="algebra"))
+        found |= ctx.violation("algebra:" + key, what, dict(rep, kind="oracle", family="algebra"))
     for _ in range(n):
         qa, qb, qc = (rquat(rng)[0] for _ in range(3))
-        a, b, c = (Orientation.fromQuaternion(q.xyzw()) for q in (qa, qb, qc))
-        v = [float(x) for x in rpos(rng)]
-        rep = {"a": list(qa.xyzw()), "b": list(qb.xyzw()), "c": list(qc.xyzw()), "v": v}
+        v = rpos(rng)
+        hh = rhalf(rng)
+        e3 = (rhalf(rng), rhalf(rng, True), rhalf(rng))
         ctx.evaluations += 1
         ctx.hist("oracle_algebra", "laws")
-        if np.abs(M((a * b) * c) - M(a * (b * c))).max() > 1e-9:
-            viol("assoc", "(a*b)*c != a*(b*c)", rep)
-        if np.abs(M(a * a.inverse) - np.eye(3)).max() > 1e-9 or np.abs(M(a.inverse * a) - np.eye(3)).max() > 1e-9:
-            viol("inverse", "a * a.inverse is not the identity", rep)
-        lhs = np.array(Vector(*v).applyRotation(a * b))
-        rhs = np.array(Vector(*Vector(*v).applyRotation(b)).applyRotation(a))
-        if np.abs(lhs - rhs).max() > 1e-8 * mag(v):
-            viol("intrinsic-order", "(a*b) applied to v is not a applied to (b applied to v)", rep)
-        e = a.eulerAngles
-        if np.abs(M(Orientation.fromEuler(*e)) - M(a)).max() > 1e-8:
-            viol("euler-roundtrip", "fromEuler(eulerAngles(a)) != a", rep)
-        la = b.localAnglesFor(a)
-        if np.abs(M(b * Orientation.fromEuler(*la)) - M(a)).max() > 1e-8:
-            viol("local-angles", "b * fromEuler(b.localAnglesFor(a)) != a", rep)
-        h = ang_f(rhalf(rng))
-        rep2 = dict(rep, h=h)
-        w = np.array(Vector(0, 1, 0).applyRotation(Orientation._fromHeading(h)))
-        w2 = np.array(Vector(0, 1, 0).rotatedBy(h))
-        w3 = np.array(Vector(0, 1, 0).applyRotation(Orientation.fromEuler(h, 0, 0)))
-        want = np.array([-math.sin(h), math.cos(h), 0.0])
-        if max(np.abs(w - want).max(), np.abs(w2 - want).max(), np.abs(w3 - want).max()) > 1e-9:
-            viol("heading-convention", f"heading {h} does not map +Y to (-sin h, cos h, 0)", rep2)
-        y, p, r = ang_f(rhalf(rng)), ang_f(rhalf(rng, True)), ang_f(rhalf(rng))
-        o = Orientation.fromEuler(y, p, r)
-        if angdiff(o.yaw, y) > 1e-8 or angdiff(o.pitch, p) > 1e-8 or angdiff(o.roll, r) > 1e-8:
-            viol("euler-extract", f"eulerAngles(fromEuler({y},{p},{r})) = {tuple(o.eulerAngles)}", dict(rep, e=[y, p, r]))
-        fw = M(o) @ np.array([0.0, 1.0, 0.0])
-        if np.abs(fw - np.array([-math.sin(y) * math.cos(p), math.cos(y) * math.cos(p), math.sin(p)])).max() > 1e-9:
-            viol("euler-forward", "forward axis of fromEuler(y,p,r) is not (-sin y cos p, cos y cos p, sin p)", dict(rep, e=[y, p, r]))
-    # Vector.cross (used nowhere by the specifiers, but part of the anchored vector algebra)
-    ctx.evaluations += 1
-    try:
-        cr = Vector(1, 0, 0).cross(Vector(0, 1, 0))
-        if tuple(cr) != (0, 0, 1):
-            viol("vector-cross:value", f"Vector(1,0,0).cross(Vector(0,1,0)) = {cr}", {})
-    except Exception as e:  # noqa
-        viol("vector-cross:" + type(e).__name__, f"Vector(1,0,0).cross(Vector(0,1,0)) raises {type(e).__name__}: {e}", {})
+        algebra_case(viol, qa, qb, qc, v, hh, e3)
     return found
 
 
 # --------------------------------------------------------------------------- main
+def restore_gen(ctx):
+    """template mismatch: never run on a Gen file produced from a *different* tree in an earlier run. Put back the
+    committed Gen/Frames.lean; if the committed one predates the current format of the generated data (it is
+    committed by the coordinator, not by the check) keep the file of the last successful extraction instead."""
+    import os
+    import subprocess
+    rel = "lean/ScenicModel/Gen/Frames.lean"
+    p = subprocess.run(["git", "-C", ctx.root, "show", f"HEAD:{rel}"], capture_output=True, text=True)
+    if p.returncode == 0 and "def facingTable" in p.stdout and "def sphThetaArgs" in p.stdout:
+        ctx.gen_restore("Frames")
+        return "committed"
+    cur = os.path.join(ctx.root, rel)
+    if os.path.exists(cur) and "def facingTable" in open(cur).read():
+        return "kept"
+    raise Infra("Gen/Frames.lean is missing or stale and the translator cannot regenerate it")
+
+
 def run(ctx):
     ctx.rule = ("cases = one specifier / operator application on random exact-rational inputs: positions (dyadic), "
                 "orientations (integer quaternions: identity, yaw-only, axis, general), dimensions, contact tolerances, "
@@ -1411,12 +1538,13 @@ def run(ctx):
     try:
         data = frames.extract()
         ctx.gen("Frames", frames.to_lean(data))
-        ctx.extra["generated_flags"] = {"apparentlyFacingUsesParent": data["apparentlyUsesParent"],
-                                        "beyondInheritsFromOrientation": data["beyondInherits"]}
+        ctx.extra["generated"] = {"facingTable": {k: list(v) for k, v in data["facing"].items()},
+                                  "eulerAxes": list(data["eulerAxes"]), "followNumSteps": data["follow"]}
     except TemplateMismatch as e:
-        ctx.escalated.append(f"translator tie lost (frames): {e}")
-        ctx.notes.append(f"translator tie lost: {e}; Gen/Frames.lean keeps the last extracted data and the tie rests on "
-                         "the correspondence run at thorough budget")
+        restore_gen(ctx)
+        ctx.escalated.append(f"translator tie lost (frames): {str(e)[:600]}")
+        ctx.notes.append(f"translator tie lost: {str(e)[:600]}; Gen/Frames.lean holds the data of the last committed / last "
+                         "extracted source and the tie rests on the correspondence run at the escalated budget")
     pr = ctx.prove(THEOREMS, side_conditions=SIDE)
     if ctx.tier == "thorough" and pr.build_ok:
         ctx.leanchecker(["ScenicModel.Props.C07", "ScenicModel.Props.C07Algebra", "ScenicModel.Props.C07Spec", "ScenicModel.Props.C07Dir", "ScenicModel.Props.C07Real",
@@ -1428,12 +1556,12 @@ def run(ctx):
     except Exception:
         pass
     batch = Batch()
-    corr = plan_correspondence(ctx, batch, ctx.budget(500, 20000)) if pr.build_ok else None
-    pd = plan_directional(ctx, batch, ctx.budget(150, 4000))
-    pf = plan_facing(ctx, batch, ctx.budget(150, 4000))
-    po = plan_offsets(ctx, batch, ctx.budget(150, 4000))
-    pop = plan_operators(ctx, batch, ctx.budget(150, 4000))
-    prg = plan_rigid(ctx, batch, ctx.budget(40, 1000))
+    corr = plan_correspondence(ctx, batch, ctx.budget(500, 8000)) if pr.build_ok else None
+    pd = plan_directional(ctx, batch, ctx.budget(150, 1600))
+    pf = plan_facing(ctx, batch, ctx.budget(150, 1600))
+    po = plan_offsets(ctx, batch, ctx.budget(150, 1600))
+    pop = plan_operators(ctx, batch, ctx.budget(150, 1600))
+    prg = plan_rigid(ctx, batch, ctx.budget(40, 400))
     batch.run()
     ctx.extra["library_calls"] = len(batch.calls)
     if corr is not None:
@@ -1444,7 +1572,7 @@ def run(ctx):
     found |= finish_offsets(ctx, batch, po)
     found |= finish_operators(ctx, batch, pop)
     found |= finish_rigid(ctx, batch, prg)
-    found |= oracle_algebra(ctx, ctx.budget(200, 5000))
+    found |= oracle_algebra(ctx, ctx.budget(200, 2000))
     ctx.resolve_brokens(found)
 
 
@@ -1457,26 +1585,66 @@ def describe(v):
     return repr(v)
 
 
+class ReplayCtx:
+    """collects what the oracle reports when a recorded case is re-evaluated"""
+
+    def __init__(self):
+        self.found, self.evaluations = [], 0
+
+    def violation(self, key, what, replay=None, no_input=False):
+        self.found.append((key, what))
+        return True
+
+    def hist(self, *a, **k):
+        pass
+
+    def case(self, *a, **k):
+        return True
+
+
+FINISH = {"directional": "finish_directional", "facing": "finish_facing", "offsets": "finish_offsets",
+          "operators": "finish_operators", "rigid": "finish_rigid"}
+
+
 def replay(ctx, path):
+    """re-executes the recorded input against $SCENIC_REPO and re-evaluates the oracle that reported it:
+    exit 1 (violation reproduced) / 0 (the property holds on this input)"""
     body = json.load(open(path))
     rep = body.get("replay", body)
+    print("property: C07   key:", body.get("key"))
     print("what:", body.get("what", ""))
-    kind = rep.get("kind")
-    if kind in ("call", "rigid"):
-        for label in ("call", "moved"):
-            if label in rep:
-                call = tuplify(rep[label])
-                print(f"--- library call ({label}): {call}")
-                print("    (the library program is tools/props/c07.py:library_source(); it is compiled by the real front end)")
-                res = run_calls([call])[0]
-                print("    result:", describe(res))
-    elif kind == "algebra":
-        print(json.dumps(rep, indent=1))
-        from scenic.core.vectors import Vector
-        try:
-            print("Vector(1,0,0).cross(Vector(0,1,0)) =", Vector(1, 0, 0).cross(Vector(0, 1, 0)))
-        except Exception as e:  # noqa
-            print("Vector.cross raises", type(e).__name__, e)
+    if body.get("no_failing_input_found") or "broken" in rep:
+        print("this record names a proof obligation / correspondence that no longer checks; no concrete input was found:")
+        print(json.dumps(rep, indent=1)[:4000])
+        print("re-run ./check C07 to re-evaluate it")
+        return 0
+    fam = rep.get("family")
+    rc = ReplayCtx()
+    if fam == "algebra":
+        algebra_case(lambda k, w, r: rc.violation("algebra:" + k, w), dec(rep["qa"]), dec(rep["qb"]), dec(rep["qc"]),
+                     dec(rep["v"]), dec(rep["hh"]), dec(rep["e3"]))
+    elif fam in FINISH:
+        c = dec(rep["case"])
+        batch = Batch()
+        if fam == "rigid":
+            c["idx"] = [[batch.add(tuplify(x)) for x in cs_] for cs_ in c["calls"]]
+        else:
+            c["call"] = tuplify(c["call"])
+            c["idx"] = batch.add(c["call"])
+        for call in batch.calls:
+            print(f"--- library call: {call}")
+        print("    (the library program is tools/props/c07.py:library_source(); it is compiled by the real front end)")
+        batch.run()
+        for r in batch.res:
+            print("    result:", describe(r))
+        globals()[FINISH[fam]](rc, batch, [c])
     else:
         print(json.dumps(rep, indent=1)[:4000])
+        print("unknown replay record")
+        return 2
+    if rc.found:
+        for k, w in rc.found:
+            print(f"VIOLATION reproduced [{k}]: {w}")
+        return 1
+    print("OK: the property holds on this input")
     return 0
